@@ -1,6 +1,7 @@
 import Harper.Lemmas.PatternRules
 import Harper.Props.C03c
 import Harper.Props.C01Rules
+import Harper.Props.C03e
 /-!
 # C03 / C01 (shipped `PatternLinter` rules) — every lint of the 28 rules points into the text
 
@@ -17,6 +18,7 @@ Per rule: `shippedRule_spans_wf` by name, and one corollary per rule.
 -/
 namespace Harper.C03
 open Harper Harper.Chunks Harper.Rules Harper.Leaves Harper.PatternRules
+open Harper.C12 (env0)
 
 /-- **every fine rule, on tokens in any order**: no panic anywhere in pattern, `run_on_chunk` or `match_to_lint`, and
 `start ≤ stop ≤ len` for every lint -/
@@ -29,6 +31,44 @@ theorem shippedRule_spans_wf (env : Env) (name : String) (r : PRule) (hn : patte
     (toks : List Tok) (h : InText src toks) : RunsWF (r.rule env) src toks :=
   patternRule_spans_wf env r (fine_of_name name r hn) src toks h
 
+/-- non-vacuity of `patternRule_spans_wf` / `shippedRule_spans_wf`: the name `"Whereas"` is in the table and its rule is
+`Fine`; tokens in the text on which it fires: the examples at the end of this file -/
+example : patternRuleByName "Whereas" = some ⟨patWhereas, specWhereas⟩ ∧ Fine ⟨patWhereas, specWhereas⟩ := ⟨rfl, fineWhereas⟩
+
+/-- **every suggestion of every lint of a fine rule is a local edit** (the second clause of C03 for the 28 rules; `SuggestionsLocal`,
+`suggestions_local` of `Props/C03e.lean`): the modelled `Suggestion::apply` returns `src[..start] ++ new ++ src[end..]` -/
+theorem patternRule_suggestions_local (env : Env) (r : PRule) (hr : Fine r) (src : List Char) (toks : List Tok) (h : InText src toks) :
+    SuggestionsLocal (r.rule env) src toks := suggestions_local _ src toks (patternRule_spans_wf env r hr src toks h)
+
+/-- … by name, for each of the 28 -/
+theorem shippedRule_suggestions_local (env : Env) (name : String) (r : PRule) (hn : patternRuleByName name = some r) (src : List Char)
+    (toks : List Tok) (h : InText src toks) : SuggestionsLocal (r.rule env) src toks :=
+  patternRule_suggestions_local env r (fine_of_name name r hn) src toks h
+
+/-- non-vacuity of `patternRule_suggestions_local` / `shippedRule_suggestions_local`: Whereas on the tokens of `Where as x` offers
+`Whereas` for `0..8`; the theorem gives the splice `Whereas x` -/
+example : (toSuggestion (.replaceWith c!"Whereas")).apply ⟨0, 8⟩ c!"Where as x" = .ok c!"Whereas x" :=
+  shippedRule_suggestions_local env0 "Whereas" _ rfl c!"Where as x"
+    [⟨⟨0, 5⟩, .word⟩, ⟨⟨5, 6⟩, .space 1⟩, ⟨⟨6, 8⟩, .word⟩, ⟨⟨8, 9⟩, .space 1⟩, ⟨⟨9, 10⟩, .word⟩] (by unfold InText TokIn; decide)
+    [⟨⟨0, 8⟩, [.replaceWith c!"Whereas"], 31, 0⟩] (by decide) ⟨⟨0, 8⟩, [.replaceWith c!"Whereas"], 31, 0⟩ (List.mem_singleton.mpr rfl)
+    (.replaceWith c!"Whereas") (List.mem_singleton.mpr rfl)
+
+/-- **all 28, on documents**: whichever rule the driver's table `patternRuleByName` dispatches to, run on the tokens of ANY
+plain-English document (any class table, any in-bounds url / e-mail / hostname lexer, any `Env`), returns — no panic — and
+every lint has `start ≤ end ≤ text length`: the hypothesis `InText` discharged by `on_documents` -/
+theorem shippedRule_on_documents (cls : Cls) (ext : Ext) (src : List Char) (hext : ExtOK ext src.length)
+    (env : Env) (name : String) (r : PRule) (hn : patternRuleByName name = some r) :
+    ∃ ls, C12.docRule cls ext (r.rule env) src = .ok ls ∧ ∀ l ∈ ls, l.span.start ≤ l.span.stop ∧ l.span.stop ≤ src.length := by
+  obtain ⟨toks, e, hT, _⟩ := on_documents cls ext src hext
+  simp only [C12.docRule, e]
+  exact shippedRule_spans_wf env name r hn src toks (inText_of_tiles src toks hT)
+
+/-- non-vacuity of `shippedRule_on_documents`: at `a--b` for Dashes, where it fires -/
+example : (∃ ls, C12.docRule C02.asciiCls C12.noExt (PRule.rule env0 ⟨patDashes, specDashes⟩) c!"a--b" = .ok ls ∧
+      ∀ l ∈ ls, l.span.start ≤ l.span.stop ∧ l.span.stop ≤ 4) ∧
+    C12.docRule C02.asciiCls C12.noExt (PRule.rule env0 ⟨patDashes, specDashes⟩) c!"a--b" = .ok [⟨⟨1, 3⟩, [.replaceWith ['–']], 21, 2⟩] :=
+  ⟨shippedRule_on_documents C02.asciiCls C12.noExt _ (by intro _ _ _ h; cases h) env0 "Dashes" _ rfl, by decide⟩
+
 /-- **where the lint is**: the selection of matched tokens the spec names — whatever the tokens are -/
 theorem matchToLint_span_is_selection (env : Env) (s : Spec) (src : List Char) (matched : List Tok) (ls : List RuleLint)
     (h : s.run env src matched = .ok ls) (l : RuleLint) (hl : l ∈ ls) : s.span.eval matched = .ok (some l.span) :=
@@ -39,6 +79,16 @@ theorem matchToLint_span_within_match (env : Env) (s : Spec) (src : List Char) (
     (h : s.run env src matched = .ok ls) (l : RuleLint) (hl : l ∈ ls) (sp : Span) (hsp : spanOf matched = some sp) :
     sp.start ≤ l.span.start ∧ l.span.stop ≤ sp.stop :=
   Sel.eval_within s.span matched sp l.span hsp (Spec.run_span env s src matched ls h l hl)
+
+/-- non-vacuity of `matchToLint_span_is_selection` / `matchToLint_span_within_match` / `matchToLint_at_most_one`:
+LeftRightHand's `match_to_lint` on the five tokens of `left hand x` returns the lint `4..5`; that IS `matched_tokens[1]`,
+inside `matched_tokens.span()` = `0..11` -/
+example : specLeftRightHand.span.eval [⟨⟨0, 4⟩, .word⟩, ⟨⟨4, 5⟩, .space 1⟩, ⟨⟨5, 9⟩, .word⟩, ⟨⟨9, 10⟩, .space 1⟩, ⟨⟨10, 11⟩, .word⟩] = .ok (some ⟨4, 5⟩) ∧
+    ((0 : Nat) ≤ 4 ∧ 5 ≤ 11) :=
+  have h : specLeftRightHand.run env0 c!"left hand x" [⟨⟨0, 4⟩, .word⟩, ⟨⟨4, 5⟩, .space 1⟩, ⟨⟨5, 9⟩, .word⟩, ⟨⟨9, 10⟩, .space 1⟩, ⟨⟨10, 11⟩, .word⟩] =
+      .ok [⟨⟨4, 5⟩, [.replaceWith ['-']], 27, 0⟩] := by decide
+  ⟨matchToLint_span_is_selection env0 _ _ _ _ h ⟨⟨4, 5⟩, [.replaceWith ['-']], 27, 0⟩ (List.mem_singleton.mpr rfl),
+    matchToLint_span_within_match env0 _ _ _ _ h ⟨⟨4, 5⟩, [.replaceWith ['-']], 27, 0⟩ (List.mem_singleton.mpr rfl) ⟨0, 11⟩ (by decide)⟩
 
 /-- `match_to_lint` returns `Option<Lint>`: at most one -/
 theorem matchToLint_at_most_one (env : Env) (s : Spec) (src : List Char) (matched : List Tok) (ls : List RuleLint)
@@ -53,64 +103,210 @@ theorem matchToLint_spans_wf (env : Env) (s : Spec) (hg : s.Good) (src : List Ch
     ∃ ls, s.run env src matched = .ok ls ∧ ∀ l ∈ ls, l.span.start ≤ l.span.stop ∧ l.span.stop ≤ src.length :=
   (Spec.run_ok env s hg src matched h hf).imp fun _ h => ⟨h.1, fun l hl => (h.2 l hl).1⟩
 
+/-- non-vacuity of `matchToLint_spans_wf`: LeftRightHand's spec is `Good`, `Fits` five tokens, and the five tokens of
+`left hand x` are in the text (the lint it returns on them: the last example of this file) -/
+example : specLeftRightHand.Good ∧ specLeftRightHand.Fits 5 ∧
+    InText c!"left hand x" [⟨⟨0, 4⟩, .word⟩, ⟨⟨4, 5⟩, .space 1⟩, ⟨⟨5, 9⟩, .word⟩, ⟨⟨9, 10⟩, .space 1⟩, ⟨⟨10, 11⟩, .word⟩] :=
+  ⟨fineLeftRightHand.good, fineLeftRightHand.fits 5 (by decide) (by decide), by unfold InText TokIn; decide⟩
+
 /-! ## one corollary per rule -/
 
 theorem backInTheDay_spans_wf (env : Env) (src : List Char) (toks : List Tok) (h : InText src toks) :
     RunsWF (PRule.rule env ⟨patBackInTheDay, specBackInTheDay⟩) src toks := patternRule_spans_wf env _ fineBackInTheDay src toks h
+/-- non-vacuity of `backInTheDay_spans_wf`: the tokens of `back in the days` are in the text and the rule fires -/
+example : InText c!"back in the days" [⟨⟨0, 4⟩, .word⟩, ⟨⟨4, 5⟩, .space 1⟩, ⟨⟨5, 7⟩, .word⟩, ⟨⟨7, 8⟩, .space 1⟩, ⟨⟨8, 11⟩, .word⟩, ⟨⟨11, 12⟩, .space 1⟩, ⟨⟨12, 16⟩, .word⟩] ∧
+    PRule.rule env0 ⟨patBackInTheDay, specBackInTheDay⟩ c!"back in the days"
+      [⟨⟨0, 4⟩, .word⟩, ⟨⟨4, 5⟩, .space 1⟩, ⟨⟨5, 7⟩, .word⟩, ⟨⟨7, 8⟩, .space 1⟩, ⟨⟨8, 11⟩, .word⟩, ⟨⟨11, 12⟩, .space 1⟩, ⟨⟨12, 16⟩, .word⟩] =
+    .ok [⟨⟨0, 16⟩, [.replaceWith c!"back in the day"], 20, 0⟩] := ⟨by unfold InText TokIn; decide, by decide⟩
 theorem dashes_spans_wf (env : Env) (src : List Char) (toks : List Tok) (h : InText src toks) :
     RunsWF (PRule.rule env ⟨patDashes, specDashes⟩) src toks := patternRule_spans_wf env _ fineDashes src toks h
+/-- non-vacuity of `dashes_spans_wf`: the tokens of `a--b` are in the text and the rule fires -/
+example : InText c!"a--b" [⟨⟨0, 1⟩, .word⟩, ⟨⟨1, 2⟩, .punct .Hyphen⟩, ⟨⟨2, 3⟩, .punct .Hyphen⟩, ⟨⟨3, 4⟩, .word⟩] ∧
+    PRule.rule env0 ⟨patDashes, specDashes⟩ c!"a--b"
+      [⟨⟨0, 1⟩, .word⟩, ⟨⟨1, 2⟩, .punct .Hyphen⟩, ⟨⟨2, 3⟩, .punct .Hyphen⟩, ⟨⟨3, 4⟩, .word⟩] =
+    .ok [⟨⟨1, 3⟩, [.replaceWith ['–']], 21, 2⟩] := ⟨by unfold InText TokIn; decide, by decide⟩
 theorem outOfDate_spans_wf (env : Env) (src : List Char) (toks : List Tok) (h : InText src toks) :
     RunsWF (PRule.rule env ⟨patOutOfDate, specOutOfDate⟩) src toks := patternRule_spans_wf env _ fineOutOfDate src toks h
+/-- non-vacuity of `outOfDate_spans_wf`: the tokens of `out of date` are in the text and the rule fires -/
+example : InText c!"out of date" [⟨⟨0, 3⟩, .word⟩, ⟨⟨3, 4⟩, .space 1⟩, ⟨⟨4, 6⟩, .word⟩, ⟨⟨6, 7⟩, .space 1⟩, ⟨⟨7, 11⟩, .word⟩] ∧
+    PRule.rule env0 ⟨patOutOfDate, specOutOfDate⟩ c!"out of date"
+      [⟨⟨0, 3⟩, .word⟩, ⟨⟨3, 4⟩, .space 1⟩, ⟨⟨4, 6⟩, .word⟩, ⟨⟨6, 7⟩, .space 1⟩, ⟨⟨7, 11⟩, .word⟩] =
+    .ok [⟨⟨0, 11⟩, [.replaceWith c!"out-of-date"], 22, 0⟩] := ⟨by unfold InText TokIn; decide, by decide⟩
 theorem thenThan_spans_wf (env : Env) (src : List Char) (toks : List Tok) (h : InText src toks) :
     RunsWF (PRule.rule env ⟨patThenThan, specThenThan⟩) src toks := patternRule_spans_wf env _ fineThenThan src toks h
+/-- non-vacuity of `thenThan_spans_wf`: the tokens of `bigger then you` are in the text and the rule fires -/
+example : InText c!"bigger then you" [⟨⟨0, 6⟩, .word⟩, ⟨⟨6, 7⟩, .space 1⟩, ⟨⟨7, 11⟩, .word⟩, ⟨⟨11, 12⟩, .space 1⟩, ⟨⟨12, 15⟩, .word⟩] ∧
+    PRule.rule { env0 with wordFlags := fun w => if w == c!"bigger" then 8 else 0 } ⟨patThenThan, specThenThan⟩ c!"bigger then you"
+      [⟨⟨0, 6⟩, .word⟩, ⟨⟨6, 7⟩, .space 1⟩, ⟨⟨7, 11⟩, .word⟩, ⟨⟨11, 12⟩, .space 1⟩, ⟨⟨12, 15⟩, .word⟩] =
+    .ok [⟨⟨7, 11⟩, [.replaceWith c!"than"], 23, 0⟩] := ⟨by unfold InText TokIn; decide, by decide⟩
 theorem piqueInterest_spans_wf (env : Env) (src : List Char) (toks : List Tok) (h : InText src toks) :
     RunsWF (PRule.rule env ⟨patPiqueInterest, specPiqueInterest⟩) src toks := patternRule_spans_wf env _ finePiqueInterest src toks h
+/-- non-vacuity of `piqueInterest_spans_wf`: the tokens of `peak my interest` are in the text and the rule fires -/
+example : InText c!"peak my interest" [⟨⟨0, 4⟩, .word⟩, ⟨⟨4, 5⟩, .space 1⟩, ⟨⟨5, 7⟩, .word⟩, ⟨⟨7, 8⟩, .space 1⟩, ⟨⟨8, 16⟩, .word⟩] ∧
+    PRule.rule { env0 with wordFlags := fun w => if w == c!"my" then 16384 else 0 } ⟨patPiqueInterest, specPiqueInterest⟩ c!"peak my interest"
+      [⟨⟨0, 4⟩, .word⟩, ⟨⟨4, 5⟩, .space 1⟩, ⟨⟨5, 7⟩, .word⟩, ⟨⟨7, 8⟩, .space 1⟩, ⟨⟨8, 16⟩, .word⟩] =
+    .ok [⟨⟨0, 4⟩, [.replaceWith c!"pique"], 24, 0⟩] := ⟨by unfold InText TokIn; decide, by decide⟩
 theorem wasAloud_spans_wf (env : Env) (src : List Char) (toks : List Tok) (h : InText src toks) :
     RunsWF (PRule.rule env ⟨patWasAloud, specWasAloud⟩) src toks := patternRule_spans_wf env _ fineWasAloud src toks h
+/-- non-vacuity of `wasAloud_spans_wf`: the tokens of `was aloud` are in the text and the rule fires -/
+example : InText c!"was aloud" [⟨⟨0, 3⟩, .word⟩, ⟨⟨3, 4⟩, .space 1⟩, ⟨⟨4, 9⟩, .word⟩] ∧
+    PRule.rule env0 ⟨patWasAloud, specWasAloud⟩ c!"was aloud"
+      [⟨⟨0, 3⟩, .word⟩, ⟨⟨3, 4⟩, .space 1⟩, ⟨⟨4, 9⟩, .word⟩] =
+    .ok [⟨⟨0, 9⟩, [.replaceWith c!"was allowed"], 25, 0⟩] := ⟨by unfold InText TokIn; decide, by decide⟩
 theorem hyphenateNumberDay_spans_wf (env : Env) (src : List Char) (toks : List Tok) (h : InText src toks) :
     RunsWF (PRule.rule env ⟨patHyphenateNumberDay, specHyphenateNumberDay⟩) src toks := patternRule_spans_wf env _ fineHyphenateNumberDay src toks h
+/-- non-vacuity of `hyphenateNumberDay_spans_wf`: the tokens of `5 day plan` are in the text and the rule fires -/
+example : InText c!"5 day plan" [⟨⟨0, 1⟩, .number 10 none⟩, ⟨⟨1, 2⟩, .space 1⟩, ⟨⟨2, 5⟩, .word⟩, ⟨⟨5, 6⟩, .space 1⟩, ⟨⟨6, 10⟩, .word⟩] ∧
+    PRule.rule { env0 with wordFlags := fun w => if w == c!"plan" then 33088 else 0 } ⟨patHyphenateNumberDay, specHyphenateNumberDay⟩ c!"5 day plan"
+      [⟨⟨0, 1⟩, .number 10 none⟩, ⟨⟨1, 2⟩, .space 1⟩, ⟨⟨2, 5⟩, .word⟩, ⟨⟨5, 6⟩, .space 1⟩, ⟨⟨6, 10⟩, .word⟩] =
+    .ok [⟨⟨1, 2⟩, [.replaceWith c!"-"], 26, 0⟩] := ⟨by unfold InText TokIn; decide, by decide⟩
 theorem leftRightHand_spans_wf (env : Env) (src : List Char) (toks : List Tok) (h : InText src toks) :
     RunsWF (PRule.rule env ⟨patLeftRightHand, specLeftRightHand⟩) src toks := patternRule_spans_wf env _ fineLeftRightHand src toks h
+/-- non-vacuity of `leftRightHand_spans_wf`: the tokens of `left hand side` are in the text and the rule fires -/
+example : InText c!"left hand side" [⟨⟨0, 4⟩, .word⟩, ⟨⟨4, 5⟩, .space 1⟩, ⟨⟨5, 9⟩, .word⟩, ⟨⟨9, 10⟩, .space 1⟩, ⟨⟨10, 14⟩, .word⟩] ∧
+    PRule.rule { env0 with wordFlags := fun w => if w == c!"side" then 256 else 0 } ⟨patLeftRightHand, specLeftRightHand⟩ c!"left hand side"
+      [⟨⟨0, 4⟩, .word⟩, ⟨⟨4, 5⟩, .space 1⟩, ⟨⟨5, 9⟩, .word⟩, ⟨⟨9, 10⟩, .space 1⟩, ⟨⟨10, 14⟩, .word⟩] =
+    .ok [⟨⟨4, 5⟩, [.replaceWith c!"-"], 27, 0⟩] := ⟨by unfold InText TokIn; decide, by decide⟩
 theorem hereby_spans_wf (env : Env) (src : List Char) (toks : List Tok) (h : InText src toks) :
     RunsWF (PRule.rule env ⟨patHereby, specHereby⟩) src toks := patternRule_spans_wf env _ fineHereby src toks h
+/-- non-vacuity of `hereby_spans_wf`: the tokens of `here by go` are in the text and the rule fires -/
+example : InText c!"here by go" [⟨⟨0, 4⟩, .word⟩, ⟨⟨4, 5⟩, .space 1⟩, ⟨⟨5, 7⟩, .word⟩, ⟨⟨7, 8⟩, .space 1⟩, ⟨⟨8, 10⟩, .word⟩] ∧
+    PRule.rule { env0 with wordFlags := fun w => if w == c!"go" then 128 else 0 } ⟨patHereby, specHereby⟩ c!"here by go"
+      [⟨⟨0, 4⟩, .word⟩, ⟨⟨4, 5⟩, .space 1⟩, ⟨⟨5, 7⟩, .word⟩, ⟨⟨7, 8⟩, .space 1⟩, ⟨⟨8, 10⟩, .word⟩] =
+    .ok [⟨⟨0, 7⟩, [.replaceWith c!"hereby"], 28, 0⟩] := ⟨by unfold InText TokIn; decide, by decide⟩
 theorem likewise_spans_wf (env : Env) (src : List Char) (toks : List Tok) (h : InText src toks) :
     RunsWF (PRule.rule env ⟨patLikewise, specLikewise⟩) src toks := patternRule_spans_wf env _ fineLikewise src toks h
+/-- non-vacuity of `likewise_spans_wf`: the tokens of `like wise` are in the text and the rule fires -/
+example : InText c!"like wise" [⟨⟨0, 4⟩, .word⟩, ⟨⟨4, 5⟩, .space 1⟩, ⟨⟨5, 9⟩, .word⟩] ∧
+    PRule.rule env0 ⟨patLikewise, specLikewise⟩ c!"like wise"
+      [⟨⟨0, 4⟩, .word⟩, ⟨⟨4, 5⟩, .space 1⟩, ⟨⟨5, 9⟩, .word⟩] =
+    .ok [⟨⟨0, 9⟩, [.replaceWith c!"likewise"], 29, 0⟩] := ⟨by unfold InText TokIn; decide, by decide⟩
 theorem nobody_spans_wf (env : Env) (src : List Char) (toks : List Tok) (h : InText src toks) :
     RunsWF (PRule.rule env ⟨patNobody, specNobody⟩) src toks := patternRule_spans_wf env _ fineNobody src toks h
+/-- non-vacuity of `nobody_spans_wf`: the tokens of `no body cares` are in the text and the rule fires -/
+example : InText c!"no body cares" [⟨⟨0, 2⟩, .word⟩, ⟨⟨2, 3⟩, .space 1⟩, ⟨⟨3, 7⟩, .word⟩, ⟨⟨7, 8⟩, .space 1⟩, ⟨⟨8, 13⟩, .word⟩] ∧
+    PRule.rule { env0 with wordFlags := fun w => if w == c!"cares" then 128 else 0 } ⟨patNobody, specNobody⟩ c!"no body cares"
+      [⟨⟨0, 2⟩, .word⟩, ⟨⟨2, 3⟩, .space 1⟩, ⟨⟨3, 7⟩, .word⟩, ⟨⟨7, 8⟩, .space 1⟩, ⟨⟨8, 13⟩, .word⟩] =
+    .ok [⟨⟨0, 7⟩, [.replaceWith c!"nobody"], 30, 0⟩] := ⟨by unfold InText TokIn; decide, by decide⟩
 theorem whereas_spans_wf (env : Env) (src : List Char) (toks : List Tok) (h : InText src toks) :
     RunsWF (PRule.rule env ⟨patWhereas, specWhereas⟩) src toks := patternRule_spans_wf env _ fineWhereas src toks h
+/-- non-vacuity of `whereas_spans_wf`: the tokens of `where as` are in the text and the rule fires -/
+example : InText c!"where as" [⟨⟨0, 5⟩, .word⟩, ⟨⟨5, 6⟩, .space 1⟩, ⟨⟨6, 8⟩, .word⟩] ∧
+    PRule.rule env0 ⟨patWhereas, specWhereas⟩ c!"where as"
+      [⟨⟨0, 5⟩, .word⟩, ⟨⟨5, 6⟩, .space 1⟩, ⟨⟨6, 8⟩, .word⟩] =
+    .ok [⟨⟨0, 8⟩, [.replaceWith c!"whereas"], 31, 0⟩] := ⟨by unfold InText TokIn; decide, by decide⟩
 theorem possessiveYour_spans_wf (env : Env) (src : List Char) (toks : List Tok) (h : InText src toks) :
     RunsWF (PRule.rule env ⟨patPossessiveYour, specPossessiveYour⟩) src toks := patternRule_spans_wf env _ finePossessiveYour src toks h
+/-- non-vacuity of `possessiveYour_spans_wf`: the tokens of `you cat` are in the text and the rule fires -/
+example : InText c!"you cat" [⟨⟨0, 3⟩, .word⟩, ⟨⟨3, 4⟩, .space 1⟩, ⟨⟨4, 7⟩, .word⟩] ∧
+    PRule.rule { env0 with wordFlags := fun w => if w == c!"cat" then 64 else 0 } ⟨patPossessiveYour, specPossessiveYour⟩ c!"you cat"
+      [⟨⟨0, 3⟩, .word⟩, ⟨⟨3, 4⟩, .space 1⟩, ⟨⟨4, 7⟩, .word⟩] =
+    .ok [⟨⟨0, 3⟩, [.replaceWith c!"your", .replaceWith ['y', 'o', 'u', '\'', 'r', 'e', ' ', 'a', 'n']], 32, 0⟩] := ⟨by unfold InText TokIn; decide, by decide⟩
 theorem multipleSequentialPronouns_spans_wf (env : Env) (src : List Char) (toks : List Tok) (h : InText src toks) :
     RunsWF (PRule.rule env ⟨patMultipleSequentialPronouns, specMultipleSequentialPronouns⟩) src toks := patternRule_spans_wf env _ fineMultipleSequentialPronouns src toks h
+/-- non-vacuity of `multipleSequentialPronouns_spans_wf`: the tokens of `he she` are in the text and the rule fires -/
+example : InText c!"he she" [⟨⟨0, 2⟩, .word⟩, ⟨⟨2, 3⟩, .space 1⟩, ⟨⟨3, 6⟩, .word⟩] ∧
+    PRule.rule env0 ⟨patMultipleSequentialPronouns, specMultipleSequentialPronouns⟩ c!"he she"
+      [⟨⟨0, 2⟩, .word⟩, ⟨⟨2, 3⟩, .space 1⟩, ⟨⟨3, 6⟩, .word⟩] =
+    .ok [⟨⟨0, 6⟩, [.replaceWith c!"he", .replaceWith c!"she"], 33, 0⟩] := ⟨by unfold InText TokIn; decide, by decide⟩
 theorem dotInitialisms_spans_wf (env : Env) (src : List Char) (toks : List Tok) (h : InText src toks) :
     RunsWF (PRule.rule env ⟨patDotInitialisms, specDotInitialisms⟩) src toks := patternRule_spans_wf env _ fineDotInitialisms src toks h
+/-- non-vacuity of `dotInitialisms_spans_wf`: the tokens of `ie.` are in the text and the rule fires -/
+example : InText c!"ie." [⟨⟨0, 2⟩, .word⟩, ⟨⟨2, 3⟩, .punct .Period⟩] ∧
+    PRule.rule env0 ⟨patDotInitialisms, specDotInitialisms⟩ c!"ie."
+      [⟨⟨0, 2⟩, .word⟩, ⟨⟨2, 3⟩, .punct .Period⟩] =
+    .ok [⟨⟨0, 3⟩, [.replaceWith c!"i.e."], 34, 0⟩] := ⟨by unfold InText TokIn; decide, by decide⟩
 theorem boringWords_spans_wf (env : Env) (src : List Char) (toks : List Tok) (h : InText src toks) :
     RunsWF (PRule.rule env ⟨patBoringWords, specBoringWords⟩) src toks := patternRule_spans_wf env _ fineBoringWords src toks h
+/-- non-vacuity of `boringWords_spans_wf`: the tokens of `very` are in the text and the rule fires -/
+example : InText c!"very" [⟨⟨0, 4⟩, .word⟩] ∧
+    PRule.rule env0 ⟨patBoringWords, specBoringWords⟩ c!"very"
+      [⟨⟨0, 4⟩, .word⟩] =
+    .ok [⟨⟨0, 4⟩, [], 35, 0⟩] := ⟨by unfold InText TokIn; decide, by decide⟩
 theorem useGenitive_spans_wf (env : Env) (src : List Char) (toks : List Tok) (h : InText src toks) :
     RunsWF (PRule.rule env ⟨patUseGenitive, specUseGenitive⟩) src toks := patternRule_spans_wf env _ fineUseGenitive src toks h
+/-- non-vacuity of `useGenitive_spans_wf`: the tokens of `see there dog` are in the text and the rule fires -/
+example : InText c!"see there dog" [⟨⟨0, 3⟩, .word⟩, ⟨⟨3, 4⟩, .space 1⟩, ⟨⟨4, 9⟩, .word⟩, ⟨⟨9, 10⟩, .space 1⟩, ⟨⟨10, 13⟩, .word⟩] ∧
+    PRule.rule { env0 with wordFlags := fun w => if w == c!"dog" then 256 else 0 } ⟨patUseGenitive, specUseGenitive⟩ c!"see there dog"
+      [⟨⟨0, 3⟩, .word⟩, ⟨⟨3, 4⟩, .space 1⟩, ⟨⟨4, 9⟩, .word⟩, ⟨⟨9, 10⟩, .space 1⟩, ⟨⟨10, 13⟩, .word⟩] =
+    .ok [⟨⟨4, 9⟩, [.replaceWith c!"their"], 36, 0⟩] := ⟨by unfold InText TokIn; decide, by decide⟩
 theorem thatWhich_spans_wf (env : Env) (src : List Char) (toks : List Tok) (h : InText src toks) :
     RunsWF (PRule.rule env ⟨patThatWhich, specThatWhich⟩) src toks := patternRule_spans_wf env _ fineThatWhich src toks h
+/-- non-vacuity of `thatWhich_spans_wf`: the tokens of `that that` are in the text and the rule fires -/
+example : InText c!"that that" [⟨⟨0, 4⟩, .word⟩, ⟨⟨4, 5⟩, .space 1⟩, ⟨⟨5, 9⟩, .word⟩] ∧
+    PRule.rule env0 ⟨patThatWhich, specThatWhich⟩ c!"that that"
+      [⟨⟨0, 4⟩, .word⟩, ⟨⟨4, 5⟩, .space 1⟩, ⟨⟨5, 9⟩, .word⟩] =
+    .ok [⟨⟨0, 9⟩, [.replaceWith c!"that which"], 37, 0⟩] := ⟨by unfold InText TokIn; decide, by decide⟩
 theorem somewhatSomething_spans_wf (env : Env) (src : List Char) (toks : List Tok) (h : InText src toks) :
     RunsWF (PRule.rule env ⟨patSomewhatSomething, specSomewhatSomething⟩) src toks := patternRule_spans_wf env _ fineSomewhatSomething src toks h
+/-- non-vacuity of `somewhatSomething_spans_wf`: the tokens of `somewhat of a` are in the text and the rule fires -/
+example : InText c!"somewhat of a" [⟨⟨0, 8⟩, .word⟩, ⟨⟨8, 9⟩, .space 1⟩, ⟨⟨9, 11⟩, .word⟩, ⟨⟨11, 12⟩, .space 1⟩, ⟨⟨12, 13⟩, .word⟩] ∧
+    PRule.rule env0 ⟨patSomewhatSomething, specSomewhatSomething⟩ c!"somewhat of a"
+      [⟨⟨0, 8⟩, .word⟩, ⟨⟨8, 9⟩, .space 1⟩, ⟨⟨9, 11⟩, .word⟩, ⟨⟨11, 12⟩, .space 1⟩, ⟨⟨12, 13⟩, .word⟩] =
+    .ok [⟨⟨0, 8⟩, [.replaceWith c!"something"], 38, 0⟩] := ⟨by unfold InText TokIn; decide, by decide⟩
 theorem despiteOf_spans_wf (env : Env) (src : List Char) (toks : List Tok) (h : InText src toks) :
     RunsWF (PRule.rule env ⟨patDespiteOf, specDespiteOf⟩) src toks := patternRule_spans_wf env _ fineDespiteOf src toks h
+/-- non-vacuity of `despiteOf_spans_wf`: the tokens of `despite of` are in the text and the rule fires -/
+example : InText c!"despite of" [⟨⟨0, 7⟩, .word⟩, ⟨⟨7, 8⟩, .space 1⟩, ⟨⟨8, 10⟩, .word⟩] ∧
+    PRule.rule env0 ⟨patDespiteOf, specDespiteOf⟩ c!"despite of"
+      [⟨⟨0, 7⟩, .word⟩, ⟨⟨7, 8⟩, .space 1⟩, ⟨⟨8, 10⟩, .word⟩] =
+    .ok [⟨⟨0, 10⟩, [.replaceWith c!"despite", .replaceWith c!"in spite of"], 39, 0⟩] := ⟨by unfold InText TokIn; decide, by decide⟩
 theorem chockFull_spans_wf (env : Env) (src : List Char) (toks : List Tok) (h : InText src toks) :
     RunsWF (PRule.rule env ⟨patChockFull, specChockFull⟩) src toks := patternRule_spans_wf env _ fineChockFull src toks h
+/-- non-vacuity of `chockFull_spans_wf`: the tokens of `chalk full` are in the text and the rule fires -/
+example : InText c!"chalk full" [⟨⟨0, 5⟩, .word⟩, ⟨⟨5, 6⟩, .space 1⟩, ⟨⟨6, 10⟩, .word⟩] ∧
+    PRule.rule env0 ⟨patChockFull, specChockFull⟩ c!"chalk full"
+      [⟨⟨0, 5⟩, .word⟩, ⟨⟨5, 6⟩, .space 1⟩, ⟨⟨6, 10⟩, .word⟩] =
+    .ok [⟨⟨0, 10⟩, [.replaceWith c!"chock-full"], 40, 1⟩] := ⟨by unfold InText TokIn; decide, by decide⟩
 theorem confident_spans_wf (env : Env) (src : List Char) (toks : List Tok) (h : InText src toks) :
     RunsWF (PRule.rule env ⟨patConfident, specConfident⟩) src toks := patternRule_spans_wf env _ fineConfident src toks h
+/-- non-vacuity of `confident_spans_wf`: the tokens of `very confidant` are in the text and the rule fires -/
+example : InText c!"very confidant" [⟨⟨0, 4⟩, .word⟩, ⟨⟨4, 5⟩, .space 1⟩, ⟨⟨5, 14⟩, .word⟩] ∧
+    PRule.rule env0 ⟨patConfident, specConfident⟩ c!"very confidant"
+      [⟨⟨0, 4⟩, .word⟩, ⟨⟨4, 5⟩, .space 1⟩, ⟨⟨5, 14⟩, .word⟩] =
+    .ok [⟨⟨5, 14⟩, [.replaceWith c!"confident"], 41, 0⟩] := ⟨by unfold InText TokIn; decide, by decide⟩
 theorem oxymorons_spans_wf (env : Env) (src : List Char) (toks : List Tok) (h : InText src toks) :
     RunsWF (PRule.rule env ⟨patOxymorons, specOxymorons⟩) src toks := patternRule_spans_wf env _ fineOxymorons src toks h
+/-- non-vacuity of `oxymorons_spans_wf`: the tokens of `amateur expert` are in the text and the rule fires -/
+example : InText c!"amateur expert" [⟨⟨0, 7⟩, .word⟩, ⟨⟨7, 8⟩, .space 1⟩, ⟨⟨8, 14⟩, .word⟩] ∧
+    PRule.rule env0 ⟨patOxymorons, specOxymorons⟩ c!"amateur expert"
+      [⟨⟨0, 7⟩, .word⟩, ⟨⟨7, 8⟩, .space 1⟩, ⟨⟨8, 14⟩, .word⟩] =
+    .ok [⟨⟨0, 14⟩, [], 42, 0⟩] := ⟨by unfold InText TokIn; decide, by decide⟩
 theorem hedging_spans_wf (env : Env) (src : List Char) (toks : List Tok) (h : InText src toks) :
     RunsWF (PRule.rule env ⟨patHedging, specHedging⟩) src toks := patternRule_spans_wf env _ fineHedging src toks h
+/-- non-vacuity of `hedging_spans_wf`: the tokens of `to a certain degree` are in the text and the rule fires -/
+example : InText c!"to a certain degree" [⟨⟨0, 2⟩, .word⟩, ⟨⟨2, 3⟩, .space 1⟩, ⟨⟨3, 4⟩, .word⟩, ⟨⟨4, 5⟩, .space 1⟩, ⟨⟨5, 12⟩, .word⟩, ⟨⟨12, 13⟩, .space 1⟩, ⟨⟨13, 19⟩, .word⟩] ∧
+    PRule.rule env0 ⟨patHedging, specHedging⟩ c!"to a certain degree"
+      [⟨⟨0, 2⟩, .word⟩, ⟨⟨2, 3⟩, .space 1⟩, ⟨⟨3, 4⟩, .word⟩, ⟨⟨4, 5⟩, .space 1⟩, ⟨⟨5, 12⟩, .word⟩, ⟨⟨12, 13⟩, .space 1⟩, ⟨⟨13, 19⟩, .word⟩] =
+    .ok [⟨⟨0, 19⟩, [], 43, 0⟩] := ⟨by unfold InText TokIn; decide, by decide⟩
 theorem expandTimeShorthands_spans_wf (env : Env) (src : List Char) (toks : List Tok) (h : InText src toks) :
     RunsWF (PRule.rule env ⟨patExpandTimeShorthands, specExpandTimeShorthands⟩) src toks := patternRule_spans_wf env _ fineExpandTimeShorthands src toks h
+/-- non-vacuity of `expandTimeShorthands_spans_wf`: the tokens of `5 hrs` are in the text and the rule fires -/
+example : InText c!"5 hrs" [⟨⟨0, 1⟩, .number 10 none⟩, ⟨⟨1, 2⟩, .space 1⟩, ⟨⟨2, 5⟩, .word⟩] ∧
+    PRule.rule env0 ⟨patExpandTimeShorthands, specExpandTimeShorthands⟩ c!"5 hrs"
+      [⟨⟨0, 1⟩, .number 10 none⟩, ⟨⟨1, 2⟩, .space 1⟩, ⟨⟨2, 5⟩, .word⟩] =
+    .ok [⟨⟨2, 5⟩, [.replaceWith c!"hours"], 44, 0⟩] := ⟨by unfold InText TokIn; decide, by decide⟩
 theorem forNoun_spans_wf (env : Env) (src : List Char) (toks : List Tok) (h : InText src toks) :
     RunsWF (PRule.rule env ⟨patForNoun, specForNoun⟩) src toks := patternRule_spans_wf env _ fineForNoun src toks h
+/-- non-vacuity of `forNoun_spans_wf`: the tokens of `fro sure` are in the text and the rule fires -/
+example : InText c!"fro sure" [⟨⟨0, 3⟩, .word⟩, ⟨⟨3, 4⟩, .space 1⟩, ⟨⟨4, 8⟩, .word⟩] ∧
+    PRule.rule env0 ⟨patForNoun, specForNoun⟩ c!"fro sure"
+      [⟨⟨0, 3⟩, .word⟩, ⟨⟨3, 4⟩, .space 1⟩, ⟨⟨4, 8⟩, .word⟩] =
+    .ok [⟨⟨0, 3⟩, [.replaceWith c!"for"], 45, 0⟩] := ⟨by unfold InText TokIn; decide, by decide⟩
 theorem theHowWhy_spans_wf (env : Env) (src : List Char) (toks : List Tok) (h : InText src toks) :
     RunsWF (PRule.rule env ⟨patTheHowWhy, specTheHowWhy⟩) src toks := patternRule_spans_wf env _ fineTheHowWhy src toks h
+/-- non-vacuity of `theHowWhy_spans_wf`: the tokens of `the why x` are in the text and the rule fires -/
+example : InText c!"the why x" [⟨⟨0, 3⟩, .word⟩, ⟨⟨3, 4⟩, .space 1⟩, ⟨⟨4, 7⟩, .word⟩, ⟨⟨7, 8⟩, .space 1⟩, ⟨⟨8, 9⟩, .word⟩] ∧
+    PRule.rule env0 ⟨patTheHowWhy, specTheHowWhy⟩ c!"the why x"
+      [⟨⟨0, 3⟩, .word⟩, ⟨⟨3, 4⟩, .space 1⟩, ⟨⟨4, 7⟩, .word⟩, ⟨⟨7, 8⟩, .space 1⟩, ⟨⟨8, 9⟩, .word⟩] =
+    .ok [⟨⟨0, 4⟩, [.remove], 46, 0⟩] := ⟨by unfold InText TokIn; decide, by decide⟩
 theorem widelyAccepted_spans_wf (env : Env) (src : List Char) (toks : List Tok) (h : InText src toks) :
     RunsWF (PRule.rule env ⟨patWidelyAccepted, specWidelyAccepted⟩) src toks := patternRule_spans_wf env _ fineWidelyAccepted src toks h
+/-- non-vacuity of `widelyAccepted_spans_wf`: the tokens of `wide used` are in the text and the rule fires -/
+example : InText c!"wide used" [⟨⟨0, 4⟩, .word⟩, ⟨⟨4, 5⟩, .space 1⟩, ⟨⟨5, 9⟩, .word⟩] ∧
+    PRule.rule env0 ⟨patWidelyAccepted, specWidelyAccepted⟩ c!"wide used"
+      [⟨⟨0, 4⟩, .word⟩, ⟨⟨4, 5⟩, .space 1⟩, ⟨⟨5, 9⟩, .word⟩] =
+    .ok [⟨⟨0, 4⟩, [.replaceWith c!"widely"], 47, 0⟩] := ⟨by unfold InText TokIn; decide, by decide⟩
 
 /-! ## non-vacuity (kernel-evaluated) -/
 
